@@ -55,6 +55,12 @@ def handleLatent (op : String) (args : List Sexp) : Option Sexp := do
   | "evans", [g, ex, fr, pr] =>
       pure (exceptToSexp graphToSexp
         (LV.evansSimplify (freshOf (← asNats? fr)) (primeOf (← asPairs? pr)) (← parseGraph g) (← asNats? ex)))
+  | "design", [d, pr, c, e] =>
+      -- ID's verdict does not depend on the topological order (`id_verdict_equiv_congr`): the model of
+      -- `nx.topological_sort` is used
+      pure (exceptToSexp (fun r => .list [.atom (if r.identifiable then "true" else "false"), nat r.preNodes,
+          nat r.preEdges, nat r.postNodes, nat r.postEdges])
+        ((← parseLV d).getResult (primeOf (← asPairs? pr)) (fun G => G.topologicalSort) (← asNat? c) (← asNat? e)))
   | _, _ => none
 
 end Y0.Driver
